@@ -242,6 +242,8 @@ theorem grow_bindLabel (s : State) (h : Inv s) (l sec : Nat) (off : BitVec 64) :
       | bound _ _ => exact grow_refl s
       | unbound fx =>
         dsimp only
+        split
+        · exact grow_refl s
         have hlab := h.lab l fx hle
         have LS := bindLoop_spec l sec off fx { secs := s.secs, relocs := s.relocs, kept := [], resolved := 0, err := .ok }
           (fun f hf hn => h.fmts _ (hlab.1 f hf hn)) (fun f hf hn => h.inb _ (hlab.1 f hf hn)) hlab.2
